@@ -135,6 +135,21 @@ def fam_close(ctx, kind, frame, hist, variant=0):
             if st == 'raise':
                 ctx.fail(sig + ': intersection of eps/1000 neighbours raises %s' % exc_sig(r), repr(r))
             ctx.require(type(r) is type(a), sig + ': eps/1000 neighbours do not intersect as coincident (got %s)' % kind_of(r))
+        if kind in ('Line', 'Segment', 'HalfLine'):
+            # a different, non-parallel line through an interior point M of a (so M is in b within the current tolerance) meets b at M:
+            # the crossing test (linear solver, null()) must use the current tolerance like every other comparison
+            e2 = (F(0), F(1), F(0)) if frame == 'axis' else (F(2), F(1), F(-2))
+            M = tuple((x + y) / 2 for x, y in zip(pa[0], pa[1]))
+            c = Line(pt(ctx, M), vec(ctx, e2))
+            st, r = call(lambda: pt(ctx, M) in b)
+            ctx.require(st == 'ok' and bool(r), sig + ': eps/1000 neighbour does not contain an interior point of the object')
+            for x, y in ((c, b), (b, c)):
+                st, r = call(lambda: G.intersection(x, y))
+                if st == 'raise':
+                    ctx.fail(sig + ': intersection with a crossing line raises %s' % exc_sig(r), repr(r))
+                ctx.require(isinstance(r, Point), sig + ': a line through a point of the object misses its eps/1000 neighbour (got %s)' % kind_of(r))
+                lim2 = F(1, 10 ** (2 * k))
+                ctx.require(R.norm2(R.vsub(V3(r), M)) <= lim2 * 4, sig + ': crossing point with a line is more than 2 eps away from the common point')
         ctx.outcome('close')
     # restoring the previous eps restores the previous behaviour
     with Config([('eps', None)]):
